@@ -1,0 +1,114 @@
+//! Verification seam (compiled only with the `verif_sim` cargo feature, which is
+//! declared by the out-of-tree shadow manifest used by the simulation harness and
+//! by nothing else).
+//!
+//! It replaces the two synchronisation primitives the engine uses for its
+//! process-global state by versions whose every blocking point is a scheduling
+//! decision of the `shuttle` simulator:
+//!
+//! * `Mutex`  = `shuttle::sync::Mutex` (wraps a real `std::sync::Mutex`, so lock
+//!   poisoning is the real std behaviour),
+//! * `OnceCell<T>` with the part of the `once_cell::sync::OnceCell` surface the
+//!   engine uses, whose value lives in the simulator's per-execution storage:
+//!   every simulated execution starts with every static cell empty, i.e. it is a
+//!   fresh process.
+pub use shuttle::sync::{Mutex, RwLock};
+
+use shuttle::sync::Once;
+use shuttle_engine::runtime::execution::ExecutionState;
+use shuttle_engine::runtime::storage::StorageKey;
+use std::marker::PhantomData;
+
+pub struct OnceCell<T> {
+    once: Once,
+    _p: PhantomData<fn() -> T>,
+}
+
+struct Slot<T>(T);
+
+unsafe fn extend_lt<T>(t: &T) -> &'static T {
+    std::mem::transmute(t)
+}
+
+impl<T: Send + Sync + 'static> OnceCell<T> {
+    pub const fn new() -> Self {
+        OnceCell {
+            once: Once::new(),
+            _p: PhantomData,
+        }
+    }
+
+    fn key(&'static self) -> StorageKey {
+        StorageKey(self as *const _ as usize, 0x51)
+    }
+
+    pub fn get(&'static self) -> Option<&'static T> {
+        let key = self.key();
+        ExecutionState::with(|s| {
+            s.get_storage::<_, Slot<T>>(key)
+                .map(|slot| unsafe { extend_lt(&slot.0) })
+        })
+    }
+
+    pub fn set(&'static self, value: T) -> Result<(), T> {
+        let mut value = Some(value);
+        self.get_or_init(|| value.take().unwrap());
+        match value {
+            None => Ok(()),
+            Some(v) => Err(v),
+        }
+    }
+
+    pub fn get_or_init<F: FnOnce() -> T>(&'static self, f: F) -> &'static T {
+        enum Void {}
+        match self.get_or_try_init(|| Ok::<T, Void>(f())) {
+            Ok(v) => v,
+            Err(void) => match void {},
+        }
+    }
+
+    pub fn get_or_try_init<F, E>(&'static self, f: F) -> Result<&'static T, E>
+    where
+        F: FnOnce() -> Result<T, E>,
+    {
+        let key = self.key();
+        if let Some(v) = self.get() {
+            return Ok(v);
+        }
+        let mut f = Some(f);
+        let mut err = None;
+        // once_cell semantics: concurrent callers block while one initialises;
+        // an initialiser that fails or panics leaves the cell empty and the next
+        // caller tries again.
+        loop {
+            self.once.call_once_force(|_| {
+                // somebody may have filled the slot through an earlier, failed
+                // `Once` round; never initialise twice
+                if ExecutionState::with(|s| s.get_storage::<_, Slot<T>>(key).is_some()) {
+                    return;
+                }
+                match (f.take().unwrap())() {
+                    Ok(v) => ExecutionState::with(|s| s.init_storage(key, Slot(v))),
+                    Err(e) => err = Some(e),
+                }
+            });
+            if let Some(v) = self.get() {
+                return Ok(v);
+            }
+            if let Some(e) = err {
+                return Err(e);
+            }
+            // the `Once` completed without a value (another caller's fallible
+            // initialiser returned Err): shuttle's Once cannot be re-armed, so the
+            // only faithful thing left is to initialise directly.
+            if let Some(f) = f.take() {
+                let v = f()?;
+                ExecutionState::with(|s| {
+                    if s.get_storage::<_, Slot<T>>(key).is_none() {
+                        s.init_storage(key, Slot(v));
+                    }
+                });
+            }
+        }
+    }
+}
